@@ -289,7 +289,31 @@ def very_deep(job):
     return part
 
 
+def pyramid_route(job):
+    """A fifth way to a tile: the traversal of a Pyramid made for one coordinate system, traversed after another
+    Pyramid was made for the other system."""
+    from toasty.pyramid import Pyramid
+
+    depth, planetary = job
+    part = Part()
+    csn = "planetary" if planetary else "astronomical"
+    first = Pyramid.new_toast(depth, coordsys=cs_of(planetary))
+    Pyramid.new_toast(depth, coordsys=cs_of(not planetary))
+    got = []
+    first.visit_leaves(lambda pos, tile: got.append((tuple(pos), tile)), parallel=1)
+    for pos, t in got:
+        part.case(nontrivial=True)
+        cfg = {"pos": pos, "coordsys": csn, "pyramid_route": True}
+        c, inc = tg.single(pos[0], pos[1], pos[2], planetary)
+        if tg.angdist(tvec(t), c).max() > 1e-9 or bool(t.increasing) != inc:
+            part.violation("route-pyramid/differs-from-reference/coordsys=%s" % csn, "%r: the tile delivered by the pyramid traversal is %.3g rad off the reference for its own coordinate system" % (cfg, tg.angdist(tvec(t), c).max()), cfg)
+            break
+    return part
+
+
 def _job(j):
+    if j[0] == "pyramid-route":
+        return pyramid_route(j[1:])
     if j[0] == "very-deep":
         return very_deep(j[1:])
     return full_levels(j[1:]) if j[0] == "full" else routes(j[1:])
@@ -326,6 +350,8 @@ def run(tier, seed):
     for i in range(4):
         jobs.append(("very-deep", vd[i::4], bool(i % 2)))
         jobs.append(("very-deep", vd[i::4], not bool(i % 2)))
+    for planetary in (False, True):
+        jobs.append(("pyramid-route", 2 if tier == "quick" else 3, planetary))
     par.pmap(_job, jobs, rep)
     return rep.finish()
 
@@ -333,7 +359,9 @@ def run(tier, seed):
 def replay(payload):
     r = payload["replay"]
     planetary = r.get("coordsys") == "planetary"
-    if r.get("very_deep"):
+    if r.get("pyramid_route"):
+        p = pyramid_route((r["pos"][0], planetary))
+    elif r.get("very_deep"):
         p = very_deep(([tuple(r["pos"])], planetary))
     elif "pos" in r and r.get("route") != "generate_tiles":
         p = routes(([tuple(r["pos"])], planetary, min(r["pos"][0], 5)))
